@@ -171,7 +171,7 @@ class Parameter(AnnotatedValue):
                     f"Type-checking failed: parameter {self.name}={value} does not have type {self.kind}."
                 )
         elif self.kind == ParamType.INT:
-            if (isinstance(value, float) and int(value) == value) or isinstance(
+            if (isinstance(value, float) and value.is_integer()) or isinstance(
                 value, int
             ):
                 pass
@@ -183,7 +183,8 @@ class Parameter(AnnotatedValue):
             elif (
                 isinstance(value, AnnotatedValue)
                 and value.kind == ParamType.FLOAT
-                and int(value.value) == value.value
+                and isinstance(getattr(value, "value", None), float)
+                and value.value.is_integer()
             ):
                 pass
             else:
